@@ -25,6 +25,7 @@ type c13Case struct {
 	Stalls int      `json:"empty_reads_before_every_delivery,omitempty"` // patterned schedule: (0,nil) this many times before each delivery
 	Chunk  int      `json:"bytes_per_read,omitempty"`                    // patterned schedule: at most this many bytes per Read
 	Big    int      `json:"big_document_bytes,omitempty"`                // Docs[0] is replaced by a generated document of about this size
+	UseNum bool     `json:"json_use_number,omitempty"`                   // JsonUseNumber is on (the direct decodes run under the same setting)
 }
 
 func init() {
@@ -184,6 +185,10 @@ func c13Exec(c *Ctx, k c13Case, choices []int) {
 		k.Docs = append([]string{c13BigDoc(strings.Contains(k.Fn, "Json"), k.Big)}, k.Docs[1:]...)
 	}
 	stream := strings.Join(k.Docs, k.Sep) + k.Trail
+	if k.UseNum {
+		mxj.JsonUseNumber = true
+		defer func() { mxj.JsonUseNumber = false }()
+	}
 	// document boundaries in the stream
 	var starts, ends []int
 	off := 0
@@ -428,7 +433,7 @@ func c13Exec(c *Ctx, k c13Case, choices []int) {
 
 func c13Run(c *Ctx) {
 	mustBeDefault(c)
-	c.S.Rule = "cases = (stream, function, reader kind, handler stop point); streams are concatenations of 1..3 documents (XML: <a/>, <a>x</a>, <a b=\"1\"><c/>t</a>, a document with XML declaration, a document with 2-, 3- and 4-byte characters in names and values (every delivery split falls inside them); JSON: {\"a\":1}, a string value with braces and quotes, a string ending in an escaped backslash, a string with an escaped backslash followed by an escaped quote, nested object/array with a bracket in a string, multi-byte characters in key and value) with separators {none, space, newline+tab} and optional trailing blanks; functions NewMapXmlReader[Raw], NewMapXmlSeqReader[Raw], NewMapJsonReader[Raw], HandleXmlReader[Raw], HandleJsonReader[Raw] (map handler returning false at every k), x2j-wrapper ToMap / XmlMsgsFromReader; reader kinds plain io.Reader and io.Reader+io.ByteReader. Schedules (E-choice): every Read call is a choice point - default full delivery, short read, (0,nil) (at most 2 in a row), final data together with io.EOF - explored exhaustively for deviation bound 0,1,2 (3 in thorough on single documents); plus patterned schedules with 50 and 97 empty reads before every delivery (bound 1 over the remaining choices); plus large first documents (about 4090, 4096, 4100 and 9000 bytes: around the 4096-byte buffers of bufio and the tokenizer) followed by a small one, delivered whole, 1 byte, 7 bytes and 4096 bytes per Read (bound 0). Oracle: results = direct decodes in order then io.EOF, no over-read into the next document, Raw values as documented, handlers once per document in order and stop on false, termination within the reader horizon. non-trivial = executions with at least one deviation (counted in counters.deviating_schedules)."
+	c.S.Rule = "cases = (stream, function, reader kind, handler stop point); streams are concatenations of 1..3 documents (XML: <a/>, <a>x</a>, <a b=\"1\"><c/>t</a>, a document with XML declaration, a document with 2-, 3- and 4-byte characters in names and values (every delivery split falls inside them); JSON: {\"a\":1}, a string value with braces and quotes, a string ending in an escaped backslash, a string with an escaped backslash followed by an escaped quote, nested object/array with a bracket in a string, multi-byte characters in key and value) with separators {none, space, newline+tab} and optional trailing blanks; functions NewMapXmlReader[Raw], NewMapXmlSeqReader[Raw], NewMapJsonReader[Raw], HandleXmlReader[Raw], HandleJsonReader[Raw] (map handler returning false at every k), x2j-wrapper ToMap / XmlMsgsFromReader; reader kinds plain io.Reader and io.Reader+io.ByteReader. Schedules (E-choice): every Read call is a choice point - default full delivery, short read, (0,nil) (at most 2 in a row), final data together with io.EOF - explored exhaustively for deviation bound 0,1,2 (3 in thorough on single documents); plus patterned schedules with 50 and 97 empty reads before every delivery (bound 1 over the remaining choices); plus large first documents (about 4090, 4096, 4100 and 9000 bytes: around the 4096-byte buffers of bufio and the tokenizer) followed by a small one, delivered whole, 1 byte, 7 bytes and 4096 bytes per Read (bound 0); the JSON functions also under JsonUseNumber (bound 1). Oracle: results = direct decodes in order then io.EOF, no over-read into the next document, Raw values as documented, handlers once per document in order and stop on false, termination within the reader horizon. non-trivial = executions with at least one deviation (counted in counters.deviating_schedules)."
 	c.S.Assumptions = []string{"JSON raw = the document with JSON-insignificant white space removed (the implementation strips it by design)", "the empty JSON object {} is not in the alphabet (handlers treat an empty Map as 'nothing arrived yet' by design)", "an io.ByteReader cannot legally deliver a byte together with an error, so that kind has only the default schedule"}
 	xmlDocs := []string{`<a/>`, `<a>x</a>`, `<a b="1"><c/>t</a>`, `<?xml version="1.0"?><a>y</a>`, "<\u00e9 k=\"\u20ac\">\U0001F600</\u00e9>"}
 	jsonDocs := []string{`{"a":1}`, `{"a":"}{\""}`, `{"a":"x\\"}`, `{"a":{"b":[1,{"c":"]"}]}}`, `{"e":"\\\"{"}`, `{"p":"C:\\dir\\ "}`, "{\"\u00e9\":\"\u20ac\U0001F600\"}", "{\"p\":\"C:\\\\\u20ac\"}"}
@@ -479,6 +484,15 @@ func c13Run(c *Ctx) {
 	}
 	build(xmlDocs, xmlFns)
 	build(jsonDocs, jsonFns)
+	// the JSON reader functions under JsonUseNumber (numbers keep their text, like the direct decode)
+	for _, k := range append([]c13Case(nil), cases...) {
+		if !strings.Contains(k.Fn, "Json") || k.Stalls > 0 || k.Big > 0 || k.ByteRd || k.Trail != "" || !strings.Contains(strings.Join(k.Docs, ""), "1") {
+			continue
+		}
+		k2 := k
+		k2.UseNum = true
+		cases = append(cases, k2)
+	}
 	for _, d := range []string{`<?xml version="1.0"?><a>y</a>`, `<!-- c --><a/>`, `<!DOCTYPE a><a b="1">t</a>`, `<?pi x?><!-- c --><a><b/></a>`} {
 		if c.Mine() {
 			c.S.States++
@@ -488,7 +502,7 @@ func c13Run(c *Ctx) {
 	// patterned schedules: 50 / 97 empty reads before every delivery (legal: fewer than 100 in a row), on the
 	// plain-reader cases with two documents or trailing blanks
 	for _, k := range append([]c13Case(nil), cases...) {
-		if k.ByteRd || (len(k.Docs) < 2 && k.Trail == "") || len(k.Docs) > 2 {
+		if k.ByteRd || k.UseNum || (len(k.Docs) < 2 && k.Trail == "") || len(k.Docs) > 2 {
 			continue
 		}
 		for _, st := range []int{50, 97} {
@@ -501,7 +515,7 @@ func c13Run(c *Ctx) {
 	// 4090-4100 / 9000 bytes followed by a small one, delivered whole, byte by byte, 7 bytes at a time and in
 	// 4096-byte pieces; no further deviations (bound 0)
 	for _, k := range append([]c13Case(nil), cases...) {
-		if k.ByteRd || len(k.Docs) != 2 || k.Stalls > 0 || k.Trail != "" || k.StopAt > 1 || k.Docs[0] != k.Docs[1] {
+		if k.ByteRd || k.UseNum || len(k.Docs) != 2 || k.Stalls > 0 || k.Trail != "" || k.StopAt > 1 || k.Docs[0] != k.Docs[1] {
 			continue
 		}
 		first := xmlDocs[0]
@@ -542,6 +556,9 @@ func c13Run(c *Ctx) {
 		}
 		if k.Big > 0 {
 			bound = 0
+		}
+		if k.UseNum {
+			bound = 1
 		}
 		c.S.States++
 		c.S.Evaluations++
